@@ -36,7 +36,7 @@ def gen_cases(tier: str, seed: int) -> List[Dict[str, Any]]:
     q = tier == "quick"
     cases: List[Dict[str, Any]] = []
     names = sorted(OPS)
-    n_fn = 96 if q else 800
+    n_fn = 96 if q else 2400
     for i in range(n_fn):
         rng = rng_for(seed, PROPERTY, "fn", i)
         fn = names[i % len(names)]
@@ -50,7 +50,7 @@ def gen_cases(tier: str, seed: int) -> List[Dict[str, Any]]:
         cons = op.constraints()
         cases.append({"kind": "fn", "fn": fn, "cfg": cfg, "constraint": rng.choice(cons), "dtype": rng.choice(["float32", "float32", "float64", "bfloat16"]),
                       "backend": "aot_eager", "fx": True, "seed": derive_seed(seed, PROPERTY, "fn", i) % (2**31)})
-    n_comp = 88 if q else 700
+    n_comp = 88 if q else 2100
     for i in range(n_comp):
         rng = rng_for(seed, PROPERTY, "comp", i)
         steps = [rng.choice(STEPS) for _ in range(rng.randint(2, 6))]
